@@ -579,9 +579,12 @@ Definition step (P : params) (c : cfg) : cfg :=
       let '(y', s1) := inst t y s in
       match get_task t s1 with
       | Some tk =>
-        let deps := tk_deps tk ++ futs (extract y') in
+        (* _continue returns to the scheduler loop iff this yield ADDED dependencies (with
+           KEEP_DEPENDENCIES the list still holds those of earlier yields): async_task.py 178-206 *)
+        let newd := futs (extract y') in
+        let deps := tk_deps tk ++ newd in
         let s2 := set_task t (mkTask (Some k) y' deps (tk_ctxs tk) (tk_cact tk) (tk_ds tk) (tk_iter tk) (tk_next tk)) s1 in
-        match deps with
+        match newd with
         | [] => mkC (MResume t) fr s2
         | _ => mkC MContRet fr s2
         end
